@@ -35,7 +35,7 @@ LEVEL = "exploration"
 RULE = (
     "One aggregate form (weighted choice among reduce, scan, count, sum, average, min, max, min_by, max_by, to_list, "
     "to_iterable, to_set, to_dict, first, last, single, first/last/single_or_default, all, some, contains, is_empty, "
-    "sequence_equal against an observable and against an iterable; forms with a seed/default are drawn twice as often) "
+    "sequence_equal against an observable and against an iterable; forms with a seed/default and sequence_equal are drawn 2-5 times as often) "
     "with generated parameters (seed/default absent, None or any value; hash/truthiness/constant predicates or none; "
     "hash key mappers; key-equality comparers; subtraction-style comparers incl. a reversed one) over a finite timeline "
     "of 0..8 (quick) / 0..14 (thorough) elements ending in completion or error from a cold, synchronous-cold or hot "
@@ -570,7 +570,7 @@ def checks(tier):
             "forms",
             _run,
             strategy=_cases(ml),
-            examples={"quick": 10000, "thorough": 16 * 4000 * 40},
-            shards={"quick": 6, "thorough": 16},
+            examples={"quick": 10000, "thorough": 16 * 75000},
+            shards={"quick": 8, "thorough": 16},
         ),
     ]
